@@ -9,7 +9,7 @@ use crate::common::{draw_strategy, file_violation, run_loop, Acc, Args};
 use crate::drive::stamp;
 use crate::json::J;
 use crate::lin::{self, Ev, POp, Pool, Verdict};
-use crate::payload::{DTok, Payload, Tok};
+use crate::payload::{DTok, Payload, Tok, Tok24};
 use crate::sched::{self, mix, Body, Lane, Outcome, Rng, RunCfg};
 use reactive_mutiny::prelude::advanced::{AllocatorAtomicArray, AllocatorFullSyncArray, BoundedOgreAllocator};
 use reactive_mutiny::verif as rv;
@@ -40,14 +40,7 @@ impl<T: Payload, A: BoundedOgreAllocator<T> + Send + Sync, const N: usize> PoolA
 }
 fn mk<T: Payload, A: BoundedOgreAllocator<T> + Send + Sync + 'static, const N: usize>() -> Arc<dyn PoolA> { Arc::new(P::<T, A, N>(BoundedOgreAllocator::new(), std::marker::PhantomData)) }
 
-/// runs `f` the way a failing task runs its clean-up: from a destructor, while the thread unwinds from a panic (raised without the panic hook, caught right here)
-pub fn during_unwind<R>(f: impl FnOnce() -> R) -> R {
-    struct D<F: FnOnce()>(Option<F>);
-    impl<F: FnOnce()> Drop for D<F> { fn drop(&mut self) { if let Some(f) = self.0.take() { f() } } }
-    let mut out = None;
-    let _ = std::panic::catch_unwind(std::panic::AssertUnwindSafe(|| { let _d = D(Some(|| out = Some(f()))); std::panic::resume_unwind(Box::new("the task failed")) }));
-    out.expect("the clean-up ran")
-}
+pub use crate::drive::during_unwind;
 
 pub fn make_pool(ring: &str, n: usize, origin: Option<u32>) -> Arc<dyn PoolA> { make_pool_of(ring, n, origin, false) }
 /// `droppy`: the pooled values have a destructor (which the deallocation runs)
@@ -71,6 +64,21 @@ pub fn make_pool_of(ring: &str, n: usize, origin: Option<u32>, droppy: bool) -> 
     rv::set_sequence_origin(None);
     p
 }
+/// pools of 24-byte values (a slot size that is not a power of two: id <-> reference conversions must divide, not shift)
+pub fn make_pool_24(ring: &str, n: usize, origin: Option<u32>) -> Arc<dyn PoolA> {
+    rv::set_sequence_origin(origin);
+    let p: Arc<dyn PoolA> = match (ring, n) {
+        ("atomic", 2) => mk::<Tok24, AllocatorAtomicArray<Tok24, 2>, 2>(),
+        ("atomic", 4) => mk::<Tok24, AllocatorAtomicArray<Tok24, 4>, 4>(),
+        ("atomic", 8) => mk::<Tok24, AllocatorAtomicArray<Tok24, 8>, 8>(),
+        ("full_sync", 2) => mk::<Tok24, AllocatorFullSyncArray<Tok24, 2>, 2>(),
+        ("full_sync", 4) => mk::<Tok24, AllocatorFullSyncArray<Tok24, 4>, 4>(),
+        ("full_sync", 8) => mk::<Tok24, AllocatorFullSyncArray<Tok24, 8>, 8>(),
+        _ => panic!("no such pool"),
+    };
+    rv::set_sequence_origin(None);
+    p
+}
 
 #[derive(Clone, Copy, Debug, PartialEq, Eq)]
 pub enum Step { Alloc { with: bool, uw: bool }, DeallocOldest { by_ref: bool, uw: bool }, DeallocNewest { by_ref: bool, uw: bool }, AllocUntilNone, DeallocAll }
@@ -79,12 +87,14 @@ pub enum Step { Alloc { with: bool, uw: bool }, DeallocOldest { by_ref: bool, uw
 pub struct Cfg { pub ring: &'static str, pub n: usize, pub origin: Option<u32>, pub scripts: Vec<Vec<Step>>, pub long: u32,
     /// the pooled values have a destructor
     pub droppy: bool,
+    /// the pooled values are 24 bytes long (not a power of two)
+    pub wide: bool,
     /// some operations (`uw` in the scripts; 1 in 8 of the long workload's) are issued from a destructor that runs while the thread unwinds from a panic
     pub unwinding: bool }
 impl Cfg {
     pub fn json(&self) -> J {
         J::obj().with("free_list", J::s(self.ring)).with("POOL_SIZE", J::i(self.n as i64)).with("sequence_origin", self.origin.map(|o| J::i(o as i64)).unwrap_or(J::Null))
-            .with("scripts", J::Arr(self.scripts.iter().map(|s| J::s(format!("{:?}", s))).collect())).with("long_ops_per_thread", J::i(self.long as i64)).with("values_with_destructor", J::Bool(self.droppy)).with("some_operations_issued_while_the_thread_unwinds_from_a_panic", J::Bool(self.unwinding))
+            .with("scripts", J::Arr(self.scripts.iter().map(|s| J::s(format!("{:?}", s))).collect())).with("long_ops_per_thread", J::i(self.long as i64)).with("values_with_destructor", J::Bool(self.droppy)).with("values_of_24_bytes", J::Bool(self.wide)).with("some_operations_issued_while_the_thread_unwinds_from_a_panic", J::Bool(self.unwinding))
     }
 }
 
@@ -102,6 +112,7 @@ pub fn draw_cfg(rng: &mut Rng, only: Option<&str>, lane: Lane, long: bool) -> Cf
     let nthreads = if long { 2 + rng.below(7) as usize } else { 2 + rng.below(3) as usize };
     let mut scripts = Vec::new();
     let droppy = rng.chance(1, 3);
+    let wide = !droppy && rng.chance(1, 3);
     let unwinding = rng.chance(1, 4);
     let uw = |rng: &mut Rng| unwinding && rng.chance(1, 3);
     for _ in 0..nthreads {
@@ -112,7 +123,7 @@ pub fn draw_cfg(rng: &mut Rng, only: Option<&str>, lane: Lane, long: bool) -> Cf
         }
         scripts.push(s);
     }
-    Cfg { ring, n, origin: draw_origin(rng, n), scripts, droppy, unwinding, long: if !long { 0 } else if lane == Lane::Ser { 50 + rng.below(300) as u32 } else { 20_000 + rng.below(80_000) as u32 } }
+    Cfg { ring, n, origin: draw_origin(rng, n), scripts, droppy, wide, unwinding, long: if !long { 0 } else if lane == Lane::Ser { 50 + rng.below(300) as u32 } else { 20_000 + rng.below(80_000) as u32 } }
 }
 
 struct Mon { owners: Vec<AtomicU32>, problems: Mutex<Vec<(String, String)>>, allocs: AtomicU64, nones: AtomicU64, base: usize }
@@ -186,7 +197,7 @@ fn body(pool: Arc<dyn PoolA>, mon: Arc<Mon>, script: Vec<Step>, long: u32, tid: 
 }
 
 pub fn one_run(cfg: &Cfg, rc: &RunCfg, acc: &mut Acc) -> (Option<J>, u64, bool) {
-    let pool = make_pool_of(cfg.ring, cfg.n, cfg.origin, cfg.droppy);
+    let pool = if cfg.wide { acc.count("runs_with_24_byte_values", 1); make_pool_24(cfg.ring, cfg.n, cfg.origin) } else { make_pool_of(cfg.ring, cfg.n, cfg.origin, cfg.droppy) };
     if cfg.droppy { crate::payload::tracker().reset(0); acc.count("runs_with_values_that_have_a_destructor", 1) }
     if cfg.unwinding { acc.count("runs_with_operations_issued_while_the_thread_unwinds_from_a_panic", 1) }
     let mon = Arc::new(Mon { owners: (0..cfg.n).map(|_| AtomicU32::new(0)).collect(), problems: Mutex::new(Vec::new()), allocs: AtomicU64::new(0), nones: AtomicU64::new(0), base: pool.addr_of(0) });
